@@ -18,25 +18,25 @@ type intrinsicFn func(e *Engine, st *State, fr *Frame, args []Value, in *ssa.Cal
 var intrinsics = map[string]intrinsicFn{}
 
 var intrinsicDoc = map[string]string{
-	"bytes.Repeat":                       "returns a fresh slice holding count copies of b (count >= 0)",
-	"bytes.Clone":                        "returns a fresh copy with equal contents",
-	"bytes.Equal":                        "true iff same length and contents",
-	"crypto/subtle.ConstantTimeCompare":  "1 iff same length and contents",
-	"(crypto.Hash).Size":                 "digest size table of the registered hash identifiers 1..19; panics otherwise (obligation at the call site)",
+	"bytes.Repeat":                      "returns a fresh slice holding count copies of b (count >= 0)",
+	"bytes.Clone":                       "returns a fresh copy with equal contents",
+	"bytes.Equal":                       "true iff same length and contents",
+	"crypto/subtle.ConstantTimeCompare": "1 iff same length and contents",
+	"(crypto.Hash).Size":                "digest size table of the registered hash identifiers 1..19; panics otherwise (obligation at the call site)",
 	"(*golang.org/x/crypto/cryptobyte.String).ReadASN1ObjectIdentifier": "true iff next TLV is a DER OBJECT IDENTIFIER with well-formed base-128 content (oidwf, uninterpreted); advances; value abstract",
 	"(encoding/asn1.ObjectIdentifier).Equal":                            "against a constant OID: true iff the parsed content octets equal the constant's canonical DER content (bijection of X.690 8.19 encodings on well-formed content)",
-	"math/bits.Add64": "sum + 2^64*carryOut = x + y + carry, carryOut in {0,1} (requires carry in {0,1})",
-	"math/bits.Sub64": "diff - 2^64*borrowOut = x - y - borrow, borrowOut in {0,1} (requires borrow in {0,1})",
-	"math/bits.Mul64": "hi*2^64 + lo = x*y",
-	"(encoding/binary.bigEndian).Uint64":    "big-endian value of b[0:8]; panics if len(b) < 8",
-	"(encoding/binary.bigEndian).PutUint64": "writes the big-endian bytes of v to b[0:8]; panics if len(b) < 8",
-	"crypto/subtle.ConstantTimeSelect":      "v==1 ? x : y for v in {0,1}",
-	"crypto/subtle.ConstantTimeByteEq":      "1 iff x == y",
-	"foreign interface method":              "a method of an interface value whose dynamic type is not a type of this module reads and writes no memory of this module (its objects are unexported or passed by value); its scalar result is arbitrary",
-	"base-256 digits":                       "positional notation is unique: if the big-endian value of n bytes b equals x then b[i] is the i-th base-256 digit of x, written be(n,x)[i]; be(n,x) has value x",
-	"errors.New":                            "returns a fresh non-nil error",
-	"crypto/rand.Reader":                    "the package variable is a non-nil reader after the standard library's initialisation and nobody reassigns it",
-	"fmt.Errorf":                            "returns a fresh non-nil error",
+	"math/bits.Add64":                                                   "sum + 2^64*carryOut = x + y + carry, carryOut in {0,1} (requires carry in {0,1})",
+	"math/bits.Sub64":                                                   "diff - 2^64*borrowOut = x - y - borrow, borrowOut in {0,1} (requires borrow in {0,1})",
+	"math/bits.Mul64":                                                   "hi*2^64 + lo = x*y",
+	"(encoding/binary.bigEndian).Uint64":                                "big-endian value of b[0:8]; panics if len(b) < 8",
+	"(encoding/binary.bigEndian).PutUint64":                             "writes the big-endian bytes of v to b[0:8]; panics if len(b) < 8",
+	"crypto/subtle.ConstantTimeSelect":                                  "v==1 ? x : y for v in {0,1}",
+	"crypto/subtle.ConstantTimeByteEq":                                  "1 iff x == y",
+	"foreign interface method":                                          "a method of an interface value whose dynamic type is not a type of this module reads and writes no memory of this module (its objects are unexported or passed by value); its scalar result is arbitrary",
+	"base-256 digits":                                                   "positional notation is unique: if the big-endian value of n bytes b equals x then b[i] is the i-th base-256 digit of x, written be(n,x)[i]; be(n,x) has value x",
+	"errors.New":                                                        "returns a fresh non-nil error",
+	"crypto/rand.Reader":                                                "the package variable is a non-nil reader after the standard library's initialisation and nobody reassigns it",
+	"fmt.Errorf":                                                        "returns a fresh non-nil error",
 }
 
 func (e *Engine) usedIntrinsic(name string) {
@@ -345,9 +345,21 @@ func init() {
 			if a.length.Val.Cmp(b.length.Val) != 0 {
 				return tFalse
 			}
-			var cs []*Term
+			var cs, as, bs []*Term
+			bytesOnly := true
 			for i := int64(0); i < a.length.Val.Int64(); i++ {
-				cs = append(cs, mkEq(e.sliceElem(st, a, mkInt64(i)), e.sliceElem(st, b, mkInt64(i))))
+				x, y := e.sliceElem(st, a, mkInt64(i)), e.sliceElem(st, b, mkInt64(i))
+				cs = append(cs, mkEq(x, y))
+				as, bs = append(as, x), append(bs, y)
+				for _, v := range []*Term{x, y} {
+					if lo, hi := rangeOf(v); lo == nil || hi == nil || lo.Sign() < 0 || hi.Cmp(big.NewInt(255)) > 0 {
+						bytesOnly = false
+					}
+				}
+			}
+			if bytesOnly && len(cs) >= 2 && e.curContract != nil && e.curContract.Options["digits"] {
+				// positional notation is unique: two strings of n bytes are equal iff their big-endian values are
+				return mkEq(os2ipRaw(as), os2ipRaw(bs))
 			}
 			return mkAnd(cs...)
 		}
